@@ -55,7 +55,7 @@ mod._verif_take_log()
 for st in plan:
     ob = {"exc": "", "msg": "", "log": [], "ret": {"kind": "", "repr": ""}}
     try:
-        pos = [val(x) for x in st["pos"]]
+        pos = [] if st["op"] == "expose" else [val(x) for x in st["pos"]]
         kw = {k["name"]: val(k["value"]) for k in st["kw"]}
         op = st["op"]
         if op == "new":
@@ -69,6 +69,9 @@ for st in plan:
             r = {"-": operator.neg, "+": operator.pos}[st["name"]](objs[st["on"]])
         elif op == "binop":
             r = BINOPS[st["name"]](objs[st["on"]], pos[0])
+        elif op == "expose":
+            r = None
+            ob["exposed"] = sorted(n for n in dir(resolve(st["path"])) if not n.startswith("_"))
         elif op == "getprop":
             r = getattr(objs[st["on"]], st["name"])
         elif op == "setprop":
